@@ -129,6 +129,7 @@ mod sys {
         pub fn _exit(code: i32) -> !;
         pub fn close(fd: i32) -> i32;
         pub fn mmap(addr: *mut u8, len: usize, prot: i32, flags: i32, fd: i32, off: i64) -> *mut u8;
+        pub fn kill(pid: i32, sig: i32) -> i32;
     }
 }
 
@@ -151,7 +152,8 @@ where
         return vec![acc];
     }
     // shared memory: [0] = next item, [1 + w] = item worker w is processing (+1), 0 = none
-    let words = 1 + workers;
+    // [0] = next item, [1 + w] = item worker w is processing (+1), [1 + workers + w] = when it started it (unix seconds)
+    let words = 1 + 2 * workers;
     let shm = unsafe { sys::mmap(std::ptr::null_mut(), words * 8, 3, 0x21 /* MAP_SHARED|MAP_ANONYMOUS */, -1, 0) };
     assert!(!shm.is_null() && shm as isize != -1, "mmap failed");
     let cells: &[AtomicUsize] = unsafe { std::slice::from_raw_parts(shm as *const AtomicUsize, words) };
@@ -184,6 +186,7 @@ where
                 if i >= n {
                     break;
                 }
+                cells[1 + workers + slot].store(now_secs(), Ordering::SeqCst);
                 cells[1 + slot].store(i + 1, Ordering::SeqCst);
                 let mut acc = Acc::default();
                 let r = std::panic::catch_unwind(std::panic::AssertUnwindSafe(|| f(i, &mut acc)));
@@ -218,9 +221,25 @@ where
         live.push(spawn(w, spawned));
         spawned += 1;
     }
+    // wall-clock watchdog per item: generous, and its firing is "inconclusive", never a violation
+    let limit: usize = std::env::var("VERIF_ITEM_TIMEOUT_S").ok().and_then(|s| s.parse().ok()).unwrap_or_else(|| if std::env::var("VERIF_TIER").map(|t| t == "thorough").unwrap_or(false) { 7_200 } else { 1_800 });
+    let mut watchdogged: Vec<i32> = vec![];
     while !live.is_empty() {
         let mut status = 0i32;
-        let pid = unsafe { sys::waitpid(-1, &mut status, 0) };
+        let pid = unsafe { sys::waitpid(-1, &mut status, 1 /* WNOHANG */) };
+        if pid == 0 {
+            let now = now_secs();
+            for (wpid, slot, _) in &live {
+                let item = cells[1 + slot].load(Ordering::SeqCst);
+                let started = cells[1 + workers + slot].load(Ordering::SeqCst);
+                if item > 0 && started > 0 && now > started + limit && !watchdogged.contains(wpid) {
+                    watchdogged.push(*wpid);
+                    unsafe { sys::kill(*wpid, 9) };
+                }
+            }
+            std::thread::sleep(std::time::Duration::from_millis(50));
+            continue;
+        }
         let Some(pos) = live.iter().position(|k| k.0 == pid) else {
             if pid < 0 {
                 break;
@@ -237,7 +256,13 @@ where
                 accs.push(Acc::from_json(&v));
             }
         }
-        if status != 0 {
+        if watchdogged.contains(&pid) {
+            let mut a = Acc::default();
+            let item = cells[1 + slot].load(Ordering::SeqCst);
+            a.add("watchdog_kills", 1);
+            a.notes.push(format!("watchdog: item {} ran for more than {limit} s of wall-clock time and was abandoned (inconclusive, not a violation)", item.saturating_sub(1)));
+            accs.push(a);
+        } else if status != 0 {
             let mut a = Acc::default();
             let item = cells[1 + slot].load(Ordering::SeqCst);
             a.add("worker_deaths", 1);
@@ -258,6 +283,10 @@ where
     }
     let _ = std::fs::remove_dir_all(&dir);
     accs
+}
+
+fn now_secs() -> usize {
+    std::time::SystemTime::now().duration_since(std::time::UNIX_EPOCH).map(|d| d.as_secs() as usize).unwrap_or(0)
 }
 
 fn rss_mb() -> usize {
